@@ -6,7 +6,7 @@
 id=$1; patch=$2; demo=$3
 wt=$(mktemp -d /tmp/seedwt_XXXX); rmdir $wt
 git -C /repo worktree add -q $wt HEAD || exit 2
-sed -e "s|/tmp/wt2\?_[a-z0-9]*|$wt|g" $demo > $wt/demo.py
+sed -e "s|/tmp/wt[0-9]*_[a-z0-9]*|$wt|g" $demo > $wt/demo.py
 cd $wt
 echo "== demo on original"; PYTHONPATH=$wt /venv/bin/python demo.py > /tmp/seed_$id.orig.out 2>&1; echo "exit=$?"; tail -2 /tmp/seed_$id.orig.out
 git apply $patch || { echo "PATCH DOES NOT APPLY"; git -C /repo worktree remove --force $wt; exit 2; }
